@@ -41,6 +41,45 @@ def _same(s, o):
     return isinstance(o, (list, tuple)) and len(o) == len(s[1]) and all(_same(a, b) for a, b in zip(s[1], o))
 
 
+def _inputs(args, kwargs):
+    stack = list(args) + list(kwargs.values())
+    while stack:
+        o = stack.pop()
+        if isinstance(o, np.ndarray):
+            yield o
+        elif isinstance(o, (list, tuple)):
+            stack.extend(o)
+
+
+def _detach(out, args, kwargs):
+    """Hand the check a copy of every returned array and overwrite the library's own array with NaN (float / complex
+    results that do not share memory with an argument).  A function that keeps what it returns - a cache, a module-level
+    constant - and hands the same object out again then visibly returns garbage on a later call.  Two independently
+    seeded changes did exactly this (lru_cache around a constructor whose result a caller then edits in place).
+    Two phases (copy everything, then poison) because the members of a returned tuple may be views of one buffer."""
+    inputs = list(_inputs(args, kwargs))
+    originals = []
+
+    def copy(o, depth=0):
+        if isinstance(o, np.ndarray):
+            if o.dtype.kind not in "fc" or not o.flags.writeable or any(np.shares_memory(o, a) for a in inputs):
+                return o
+            originals.append(o)
+            return o.copy()
+        if isinstance(o, (list, tuple)) and depth < 3 and len(o) <= 64 and all(isinstance(x, (np.ndarray, list, tuple)) for x in o):
+            new = [copy(x, depth + 1) for x in o]
+            return tuple(new) if isinstance(o, tuple) else new
+        return o
+
+    keep = copy(out)
+    for o in originals:
+        try:
+            o.fill(np.nan)
+        except Exception:  # noqa: BLE001
+            pass
+    return keep
+
+
 def wrap(fn):
     name = fn.__name__
 
@@ -61,7 +100,7 @@ def wrap(fn):
         for k, s in ksnaps.items():
             if not _same(s, kwargs[k]):
                 raise Violation(f"{name} modified its argument `{k}`, which belongs to the caller", "args-mutated:" + name)
-        return out
+        return _detach(out, args, kwargs)
 
     wrapper._tqv_pure = True
     return wrapper
